@@ -377,4 +377,13 @@ def _patch_sheet(xml, results):
             attrs += f' t="{t}"'
         return (f'<c r="{coord}"{attrs}>{m.group("f")}'
                 f'<v>{xml_escape(text)}</v></c>')
-    return _CELL_RE.sub(repl, xml)
+    xml = _CELL_RE.sub(repl, xml)
+
+    # members of an array formula whose stored result is an empty text:
+    # openpyxl writes <c t="inlineStr"/>, Excel writes a formula string
+    def empty_member(m):
+        if results.get(m.group('r')) != '':
+            return m.group(0)
+        return f'<c r="{m.group("r")}"{m.group("attrs")} t="str"><v></v></c>'
+    return re.sub(r'<c r="(?P<r>[A-Z]+[0-9]+)"(?P<attrs>[^>]*?) '
+                  r't="inlineStr"\s*/>', empty_member, xml)
